@@ -165,6 +165,34 @@ theorem maxId_is_highest (es : List Entry) (h : ∀ e ∈ es, 1 ≤ e.rl ∧ e.i
         rw [Nat.max_eq_right (by omega)]
         exact ⟨h1, h2⟩
 
+/-- **`minId` is the lowest addressed tile** (what `MinZoom` is checked against) -/
+theorem minId_is_lowest (es : List Entry) (h : ∀ e ∈ es, 1 ≤ e.rl) (hb : ∀ e ∈ es, e.id < 2^64) :
+    (∀ e ∈ es, ∀ t, e.id ≤ t → t < e.id + e.rl → minId es ≤ t) ∧
+      (es ≠ [] → ∃ e ∈ es, e.id ≤ minId es ∧ minId es < e.id + e.rl) := by
+  induction es with
+  | nil => exact ⟨fun e he => by simp at he, fun hne => absurd rfl hne⟩
+  | cons a r ih =>
+    have hr := ih (fun e he => h e (by simp [he])) (fun e he => hb e (by simp [he]))
+    have ha := h a (by simp)
+    constructor
+    · intro e he t h1 h2
+      simp only [minId]
+      rcases List.mem_cons.mp he with rfl | he
+      · exact Nat.le_trans (Nat.min_le_left _ _) h1
+      · exact Nat.le_trans (Nat.min_le_right _ _) (hr.1 e he t h1 h2)
+    · intro _
+      simp only [minId]
+      by_cases hc : a.id ≤ minId r
+      · exact ⟨a, by simp, by rw [Nat.min_eq_left hc]; omega⟩
+      · have hne : r ≠ [] := by
+          intro hnil; subst hnil
+          have := hb a (by simp)
+          simp [minId] at hc; omega
+        obtain ⟨e, he, h1, h2⟩ := hr.2 hne
+        refine ⟨e, by simp [he], ?_⟩
+        rw [Nat.min_eq_right (by omega)]
+        exact ⟨h1, h2⟩
+
 /-- D25 (test): the maximum zoom is that of the last ADDRESSED tile — an archive whose only entry is a
     run over tiles 0..4 (zoom 0 and all of zoom 1) is consistent with MaxZoom = 1, not with MaxZoom = 0 -/
 def runH (mz : Nat) : Header := { rootOffset := 127, rootLength := 10, metadataOffset := 137, metadataLength := 2, leafDirectoryOffset := 139, leafDirectoryLength := 0, tileDataOffset := 139, tileDataLength := 3, addressedTilesCount := 5, tileEntriesCount := 1, tileContentsCount := 1, clustered := true, minZoom := 0, maxZoom := mz, centerZoom := 0, minLonE7 := (-10), maxLonE7 := 10, minLatE7 := (-10), maxLatE7 := 10 }
